@@ -442,6 +442,11 @@ func streamCore(o *Out, rng *rand.Rand, thorough bool, _ []string) {
 		run(o, fmt.Sprintf("core %s %d | %s", ctors[k%len(ctors)], cnt, strings.Join(hs, " ")))
 		o.count("large-payload")
 	}
+	// very deep nesting (beyond any plausible recursion guard)
+	for k, depth := range []int{33, 64, 120} {
+		run(o, coreLine(rng, ctors[k%len(ctors)], 3, veryDeepSchema(rng, depth), 4))
+		o.count("very-deep")
+	}
 	// random schemas
 	ncases := 600
 	if thorough {
